@@ -403,6 +403,7 @@ impl<'a> EntryScanner<'a> {
                         last_class, class,
                     ));
                 }
+                self.zonefile.last_class = Some(class);
                 class
             }
 
